@@ -204,11 +204,14 @@ where
     let prices = flat_prices(T::one(), T::one(), T::one());
     let delta: T = kani::any();
     let min: T = kani::any();
-    let a = DecreasePosition::try_new(p, prices, delta, None, T::zero(), symbolic_flags());
+    let (mut pos0, mut pos) = (p, p);
+    let a = DecreasePosition::try_new(&mut pos0, prices, delta, None, T::zero(), symbolic_flags());
     let Ok(a) = a else {
         core::mem::forget(a);
         return;
     };
+    // re-seat on a fresh handle (a handle read back from the `Result` payload is imprecise for CBMC)
+    let a = a.verif_with_position(&mut pos);
     let d = w(*a.verif_size_delta_usd());
     let size = w(p.size_in_usd);
     let tokens = w(p.size_in_tokens);
@@ -292,13 +295,16 @@ where
     }
 }
 
-fn partial_close_promotes<T, const D: u8>(full: bool)
+fn partial_close_promotes<T, const D: u8>(full: bool, side: Option<bool>)
 where
     T: FixedPointOps<D> + CheckedSub + Copy + kani::Arbitrary + Into<u32> + num_traits::Bounded,
     T::Signed: Num + Copy + kani::Arbitrary,
 {
     let max = w(T::max_value());
-    let is_long: bool = kani::any();
+    let is_long: bool = match side {
+        Some(l) => l,
+        None => kani::any(),
+    };
     let coll_long: bool = kani::any();
     let (m, prices) = partial_close_market::<T, D>(full, is_long, coll_long);
     let mut p = VPosition::<T, D>::zero(m, is_long, coll_long);
@@ -310,11 +316,14 @@ where
     kani::assume(*m.open_interest_in_tokens.get(is_long).side(coll_long) >= p.size_in_tokens);
     let delta: T = kani::any();
     let withdraw: T = kani::any();
-    let a = DecreasePosition::try_new(p, prices, delta, None, withdraw, symbolic_flags());
-    let Ok(mut a) = a else {
+    let (mut pos0, mut pos) = (p, p);
+    let a = DecreasePosition::try_new(&mut pos0, prices, delta, None, withdraw, symbolic_flags());
+    let Ok(a) = a else {
         core::mem::forget(a);
         return;
     };
+    // re-seat on a fresh handle (a handle read back from the `Result` payload is imprecise for CBMC)
+    let mut a = a.verif_with_position(&mut pos);
     let d0 = w(*a.verif_size_delta_usd());
     let w0 = w(*a.verif_withdrawable_collateral_amount());
     let size = w(p.size_in_usd);
@@ -332,7 +341,7 @@ where
     let d1 = w(*a.verif_size_delta_usd());
     let w1 = w(*a.verif_withdrawable_collateral_amount());
     // the checks never touch the position or the market
-    assert!(*a.verif_position() == p);
+    assert!(**a.verif_position() == p);
     // the delta is only ever promoted to the full size
     assert!(d1 == d0 || d1 == size);
     assert!(d1 <= size);
@@ -366,11 +375,20 @@ where
 
 //@ prop=C07 tier=quick kind=hold
 //@ enc=DecreasePosition::try_new, DecreasePosition::check_partial_close, DecreasePosition::is_remaining_size_too_small, DecreasePosition::check_close, PositionExt::pnl_value, PositionExt::size_delta_in_tokens, PositionExt::will_collateral_be_sufficient
-//@ bound=T=u8, DECIMALS=1: every position (sizes, collateral, side, collateral token), size delta, withdrawal amount, flag combination, min position size / min collateral value / min collateral factor, any flat index price and flat collateral price; the position's own open-interest slots = position + symbolic rest, the other slots 0; pnl cap factor 100% on a 100/100 pool, open-interest collateral multiplier 0
-//@ stubs=none; hooks: DecreasePosition::verif_check_partial_close / verif_check_close / accessors (thin wrappers)
+//@ bound=T=u8, DECIMALS=1: long position; every size in usd / tokens, collateral, collateral token, size delta, withdrawal amount, flag combination, min position size / min collateral value / min collateral factor, any flat index price and flat collateral price; the position's own open-interest slots = position + symbolic rest, the other slots 0; pnl cap factor 100% on a 100/100 pool, open-interest collateral multiplier 0
+//@ stubs=none; hooks: DecreasePosition::verif_check_partial_close / verif_check_close / verif_with_position / accessors (thin wrappers)
 #[kani::proof]
-fn c07_partial_close_promotes_u8() {
-    partial_close_promotes::<u8, 1>(false);
+fn c07_partial_close_promotes_long_u8() {
+    partial_close_promotes::<u8, 1>(false, Some(true));
+}
+
+//@ prop=C07 tier=quick kind=hold
+//@ enc=DecreasePosition::try_new, DecreasePosition::check_partial_close, DecreasePosition::is_remaining_size_too_small, DecreasePosition::check_close, PositionExt::pnl_value, PositionExt::size_delta_in_tokens, PositionExt::will_collateral_be_sufficient
+//@ bound=T=u8, DECIMALS=1: short position; every size in usd / tokens, collateral, collateral token, size delta, withdrawal amount, flag combination, min position size / min collateral value / min collateral factor, any flat index price and flat collateral price; the position's own open-interest slots = position + symbolic rest, the other slots 0; pnl cap factor 100% on a 100/100 pool, open-interest collateral multiplier 0
+//@ stubs=none; hooks: DecreasePosition::verif_check_partial_close / verif_check_close / verif_with_position / accessors (thin wrappers)
+#[kani::proof]
+fn c07_partial_close_promotes_short_u8() {
+    partial_close_promotes::<u8, 1>(false, Some(false));
 }
 
 //@ prop=C07 tier=thorough kind=hold
@@ -380,7 +398,7 @@ fn c07_partial_close_promotes_u8() {
 //@ timeout=3600 mem=30
 #[kani::proof]
 fn c07_partial_close_promotes_all_u8() {
-    partial_close_promotes::<u8, 1>(true);
+    partial_close_promotes::<u8, 1>(true, None);
 }
 
 // ------------------------------------------------------------------------------------------------
@@ -433,7 +451,7 @@ fn any_balance_change() -> BalanceChange {
     }
 }
 
-fn increase_collateral_sum_exact<T, const D: u8>(level: u8)
+pub(crate) fn increase_collateral_sum_exact<T, const D: u8>(level: u8)
 where
     T: FixedPointOps<D> + CheckedSub + Copy + kani::Arbitrary + Into<u32> + num_traits::Bounded,
     T::Signed: Num + Copy + kani::Arbitrary + Into<i32>,
@@ -447,11 +465,13 @@ where
     let prices = flat_prices(i, c, c);
     let increment: T = kani::any();
     let size_delta: T = kani::any();
-    let a = IncreasePosition::try_new(&mut p, prices, increment, size_delta, None);
-    let Ok(mut a) = a else {
+    let mut pos0 = p;
+    let a = IncreasePosition::try_new(&mut pos0, prices, increment, size_delta, None);
+    let Ok(a) = a else {
         core::mem::forget(a);
         return;
     };
+    let mut a = a.verif_with_position(&mut p);
     let impact = PriceImpact { value: T::Signed::zero(), balance_change: any_balance_change() };
     let r = a.verif_process_collateral(&impact);
     let Ok((delta, fees)) = &r else {
@@ -511,3 +531,4 @@ fn c07_increase_collateral_sum_exact_u8() {
 fn c07_increase_collateral_sum_exact_all_fees_u8() {
     increase_collateral_sum_exact::<u8, 1>(2);
 }
+
